@@ -78,6 +78,12 @@ impl<K: Ord + Copy, V> BTreeMap<K, V> {
         (c0, c1)
     }
 
+    // Pure look-ups need no order precondition: a probe equal to a stored key compares like that key
+    // against all others, and a probe equal to none is "not found" on every search path.
+    fn lookup(&self, p: &K) -> (Ordering, Ordering) {
+        (cmp_slot(p, &self.k0), cmp_slot(p, &self.k1))
+    }
+
     pub fn iter(&self) -> Iter<'_, K, V> {
         Iter { map: self, pos: 0 }
     }
@@ -102,7 +108,7 @@ impl<K: Ord + Copy, V> BTreeMap<K, V> {
     }
 
     pub fn insert(&mut self, k: K, v: V) -> Option<V> {
-        let (c0, c1) = self.order(&k);
+        let (c0, c1) = self.lookup(&k);
         if self.k0.is_some() && c0 == Ordering::Equal {
             return mem::replace(&mut self.v0, Some(v));
         }
@@ -114,7 +120,7 @@ impl<K: Ord + Copy, V> BTreeMap<K, V> {
     }
 
     pub fn remove(&mut self, k: &K) -> Option<V> {
-        let (c0, c1) = self.order(k);
+        let (c0, c1) = self.lookup(k);
         if self.k0.is_some() && c0 == Ordering::Equal {
             let rv = self.v0.take();
             self.k0 = self.k1;
@@ -130,7 +136,7 @@ impl<K: Ord + Copy, V> BTreeMap<K, V> {
     }
 
     pub fn entry(&mut self, k: K) -> Entry<'_, K, V> {
-        let (c0, c1) = self.order(&k);
+        let (c0, c1) = self.lookup(&k);
         if (self.k0.is_some() && c0 == Ordering::Equal) || (self.k1.is_some() && c1 == Ordering::Equal) {
             return Entry::Occupied(OccupiedEntry);
         }
